@@ -25,7 +25,10 @@ def parseAnOp (args : List String) : Option Op :=
   | ["dfget", t, a, b, m] => do some (.dfget (← t.toNat?) (← a.toNat?) (← b.toNat?) (← m.toNat?))
   | ["dfgetlen", t, a, b] => do some (.dfgetlen (← t.toNat?) (← a.toNat?) (← b.toNat?))
   | ["dfaddf", t, r, h] => do some (.dfaddf (← t.toNat?) (← r.toNat?) (← parseHex h))
-  | ["dfgetf", t, i, m] => do some (.dfgetf (← t.toNat?) (← i.toNat?) (← m.toNat?))
+  | ["hdel", a, b] => do some (.hdel (← a.toNat?) (← b.toNat?))
+  | ["dfflen", t, f] => do some (.dfflen (← t.toNat?) (← f.toNat?))
+  | ["dffget", t, f, m] => do some (.dffget (← t.toNat?) (← f.toNat?) (← m.toNat?))
+  | ["dflablist", t, n, m, p] => do some (.dflablist (← t.toNat?) (← n.toNat?) (← m.toNat?) (← p.toNat?))
   | _ => none
 
 def showAnOut : Out → String
@@ -35,6 +38,7 @@ def showAnOut : Out → String
   | .nats l => showNatList l
   | .bytes b => toHex b
   | .read b w => s!"{toHex b} {w}"
+  | .lablist r l => s!"{showNatList r} {if l.isEmpty then "-" else ",".intercalate (l.map toHex)}"
 
 def stepAn (s : AnState) (args : List String) : AnState × String :=
   match parseAnOp args with
